@@ -264,9 +264,10 @@ def edge_pool(name, **opts):
         return _edge_cache[key]
     out, seen, lengths = [], set(), {}
     for v in pool(name, **opts):
-        lengths.setdefault(len(v), v)
+        # one base number per shape: length and which positions hold digits / upper / lower case letters
+        lengths.setdefault((len(v), ''.join('d' if c.isdigit() else 'u' if c.isupper() else 'l' if c.islower() else 'o' for c in v)), v)
     m = core.number_modules()[name]
-    for v in list(lengths.values())[:4]:
+    for v in list(lengths.values())[:6]:
         if len(v) > 40:
             continue
         for pos in sorted(set([0, 1, len(v) - 2, len(v) - 1])):
